@@ -11,6 +11,7 @@ import (
 	"fmt"
 	"net"
 	"sync"
+	"sync/atomic"
 	"time"
 
 	"github.com/orda-io/orda/client/pkg/model"
@@ -56,6 +57,21 @@ func rtOp(r *rng, typ string, dt orda.Datatype, who, k int) {
 	}
 }
 
+// rtOpSure: a local operation that always produces an operation
+func rtOpSure(typ string, dt orda.Datatype, who, k int) {
+	defer func() { _ = recover() }()
+	switch typ {
+	case "counter":
+		_, _ = dt.(orda.Counter).IncreaseBy(int32(1 + k%7))
+	case "map":
+		_, _ = dt.(orda.Map).Put(fmt.Sprintf("h%d", k%2), fmt.Sprintf("c%d-%d", who, k))
+	case "list":
+		_, _ = dt.(orda.List).InsertMany(0, fmt.Sprintf("c%d-%d", who, k))
+	case "document":
+		_, _ = dt.(orda.Document).PutToObject(fmt.Sprintf("h%d", k%2), fmt.Sprintf("c%d-%d", who, k))
+	}
+}
+
 func runRtProfile(seed uint64, cases int, out func(cmd, obs J), stats string) {
 	st := map[string]int{}
 	r := &rng{s: seed*0x9e3779b97f4a7c15 + 777}
@@ -66,7 +82,9 @@ func runRtProfile(seed uint64, cases int, out func(cmd, obs J), stats string) {
 		perClient := 1 + r.intn(6)
 		delayMs := r.intn(6)
 		respDelayMs := r.intn(7)
-		cmd := J{"k": "rtcase", "id": c, "profile": "rt", "dt": typ, "n": n, "ops": perClient, "notifyDelayMs": delayMs, "respDelayMs": respDelayMs}
+		// hand-over: a local operation issued exactly when the running delivery has just decided that nothing is left to push
+		handover := r.intn(2) == 0
+		cmd := J{"k": "rtcase", "id": c, "profile": "rt", "dt": typ, "n": n, "ops": perClient, "notifyDelayMs": delayMs, "respDelayMs": respDelayMs, "handover": handover}
 		obs := J{}
 		hung := guarded(obs, func() {
 			_, _, _ = w.stepMkCol("cola")
@@ -152,8 +170,42 @@ func runRtProfile(seed uint64, cases int, out func(cmd, obs J), stats string) {
 			}
 			wg.Wait()
 			// no Sync call from here on: wait for the clients to converge by themselves
-			deadline := time.Now().Add(2500 * time.Millisecond)
-			same := func() (bool, []interface{}) {
+			// The library's reads (ToJSON, Get, Size) take no lock: a view must not be read while a response is being applied
+			// (Go aborts the process on a map read during a map write).  Views are therefore read only when every client stands at
+			// the end of the stored log with nothing to push and no delivery has completed in between (forced reads the report at the deadline).
+			logEnd := func() uint64 {
+				var end uint64
+				if dts, ok := w.storeJ()["datatypes"].([]interface{}); ok && len(dts) > 0 {
+					if dj, ok := dts[0].(J); ok {
+						end = toU64(dj["end"])
+					}
+				}
+				return end
+			}
+			settled := func() bool {
+				end := logEnd()
+				for _, rc := range cls {
+					if rc.dt.(interface{ NeedPush() bool }).NeedPush() {
+						return false
+					}
+					pk := rc.dt.(interface{ CreatePushPullPack() *model.PushPullPack }).CreatePushPullPack()
+					if len(pk.Operations) > 0 || pk.CheckPoint.Sseq != end {
+						return false
+					}
+				}
+				return true
+			}
+			same := func(force bool) (bool, []interface{}) {
+				if !force {
+					h0 := atomic.LoadInt64(&hSpawned)
+					if !settled() {
+						return false, nil
+					}
+					time.Sleep(3 * time.Millisecond)
+					if !settled() || atomic.LoadInt64(&hSpawned) != h0 || atomic.LoadInt64(&hDone) != h0 {
+						return false, nil
+					}
+				}
 				views := make([]interface{}, 0, n)
 				ok := true
 				for _, rc := range cls {
@@ -171,18 +223,56 @@ func runRtProfile(seed uint64, cases int, out func(cmd, obs J), stats string) {
 			t0 := time.Now()
 			var views []interface{}
 			ok := false
-			stable := 0
-			for time.Now().Before(deadline) {
-				ok, views = same()
-				if ok {
-					stable++
-					if stable >= 3 {
-						break
+			waitConv := func(limit time.Duration) {
+				deadline := time.Now().Add(limit)
+				stable := 0
+				for time.Now().Before(deadline) {
+					ok, views = same(false)
+					if ok {
+						stable++
+						if stable >= 3 {
+							break
+						}
+					} else {
+						stable = 0
 					}
-				} else {
-					stable = 0
+					time.Sleep(10 * time.Millisecond)
 				}
-				time.Sleep(10 * time.Millisecond)
+				if !ok {
+					time.Sleep(20 * time.Millisecond)
+					ok, views = same(true) // for the report
+					ok = false
+				}
+			}
+			waitConv(2500 * time.Millisecond)
+			if handover && ok {
+				parked := make(chan struct{}, 1)
+				release := make(chan struct{})
+				var once int32
+				npParkFn.Store(func() chan struct{} {
+					if atomic.CompareAndSwapInt32(&once, 0, 1) {
+						parked <- struct{}{}
+						return release
+					}
+					return nil
+				})
+				who := r.intn(n)
+				rtOpSure(typ, cls[who].dt, who, 100)
+				got := false
+				select {
+				case <-parked:
+					got = true
+				case <-time.After(1500 * time.Millisecond):
+				}
+				if got {
+					// the delivery of the first operation stands right behind its "anything left?" reading: the next operation
+					rtOpSure(typ, cls[who].dt, who, 101)
+					time.Sleep(time.Duration(respDelayMs+40) * time.Millisecond)
+				}
+				npParkFn.Store((func() chan struct{})(nil))
+				close(release)
+				obs["handoverParked"] = got
+				waitConv(2500 * time.Millisecond)
 			}
 			obs["converged"] = ok
 			obs["views"] = views
@@ -206,6 +296,30 @@ func runRtProfile(seed uint64, cases int, out func(cmd, obs J), stats string) {
 		if obs["converged"] == true {
 			st["converged"]++
 		}
+		if handover {
+			st["handover"]++
+		}
+		if obs["handoverParked"] == true {
+			st["handover-parked"]++
+		}
 	}
 	writeStats(stats, st)
+}
+
+func toU64(v interface{}) uint64 {
+	switch x := v.(type) {
+	case int64:
+		return uint64(x)
+	case int:
+		return uint64(x)
+	case uint64:
+		return x
+	case float64:
+		return uint64(x)
+	case int32:
+		return uint64(x)
+	case uint32:
+		return uint64(x)
+	}
+	return 0
 }
